@@ -127,12 +127,12 @@ theorem finish_match (x : Ext R) (fl : Flags) (mt : R → N → Bool) (P Nn P' N
   rw [key]
 
 /-- members of what the loop builds = members of the specification's lists -/
-theorem core_members (x : Ext R) (fl : Flags) (ps : List Pat) (neg0 : List R) (pulls0 : Nat) :
-    (∀ r, r ∈ (pureRun x fl (pnPolicy x fl) ps (coreStart neg0 pulls0)).out.pos ↔
+theorem core_members (x : Ext R) (fl : Flags) (ps : List Pat) (neg0 : List R) (pulls0 used : Nat) :
+    (∀ r, r ∈ (pureRun x fl (pnPolicy x fl) ps (coreStart neg0 pulls0 used)).out.pos ↔
           r ∈ (specIncl x fl ps).map (x.parse fl)) ∧
-    (∀ r, r ∈ (pureRun x fl (pnPolicy x fl) ps (coreStart neg0 pulls0)).out.neg ↔
+    (∀ r, r ∈ (pureRun x fl (pnPolicy x fl) ps (coreStart neg0 pulls0 used)).out.neg ↔
           r ∈ neg0 ++ (specExclInline x fl ps).map (x.parse (negFlags fl))) := by
-  obtain ⟨h1, h2⟩ := core_out x fl ps neg0 pulls0
+  obtain ⟨h1, h2⟩ := core_out x fl ps neg0 pulls0 used
   rw [h1, h2]
   constructor
   · intro r
@@ -149,13 +149,13 @@ theorem core_members (x : Ext R) (fl : Flags) (ps : List Pat) (neg0 : List R) (p
 
 /-- one core call, matched -/
 theorem core_sem (x : Ext R) (fl : Flags) (cnt : Pat → Nat) (hb : BraceOK x cnt) (mt : R → N → Bool) (L : Int)
-    (ps : List Pat) (neg0 : List R) (pulls0 : Nat) (o : Out R) (name : N)
-    (h : compileCore x fl L ps neg0 pulls0 = .ok o) :
+    (ps : List Pat) (neg0 : List R) (pulls0 used : Nat) (o : Out R) (name : N)
+    (h : compileCore x fl L ps neg0 pulls0 used = .ok o) :
     matchPN mt o.pos o.neg name = true ↔
       specOf x fl mt ((specIncl x fl ps).map (x.parse fl))
         (neg0 ++ (specExclInline x fl ps).map (x.parse (negFlags fl))) name := by
-  obtain ⟨ho, _⟩ := core_inv x fl cnt hb L ps neg0 pulls0 o h
-  obtain ⟨h1, h2⟩ := core_members x fl ps neg0 pulls0
+  obtain ⟨ho, _⟩ := core_inv x fl cnt hb L ps neg0 pulls0 used o h
+  obtain ⟨h1, h2⟩ := core_members x fl ps neg0 pulls0 used
   rw [ho]
   exact finish_match x fl mt _ _ _ _ name h1 h2
 
@@ -186,22 +186,22 @@ theorem pn_sem (tr : Bool) (x : Ext R) (fl0 : Flags) (cnt : Pat → Nat) (hb : B
   cases ex with
   | none =>
     simp only [pnCall] at h
-    have := core_sem x _ cnt hb mt L ps [] 0 o name h
+    have := core_sem x _ cnt hb mt L ps [] 0 0 o name h
     simpa [specMatch, specExclArg] using this
   | some e =>
     simp only [pnCall] at h
-    cases hin : compileCore x (flE tr fl0) L e [] 0 with
+    cases hin : compileCore x (flE tr fl0) L e [] 0 0 with
     | error er => simp [hin] at h
     | ok oe =>
       simp only [hin] at h
-      have hm := core_sem x _ cnt hb mt _ ps oe.pos oe.pulls o name h
+      have hm := core_sem x _ cnt hb mt _ ps oe.pos oe.pulls oe.pos.length o name h
       rw [hm]
-      obtain ⟨hoe, _⟩ := core_inv x _ cnt hb L e [] 0 oe hin
+      obtain ⟨hoe, _⟩ := core_inv x _ cnt hb L e [] 0 0 oe hin
       -- the exclusion call returns one positive per distinct piece, compiled under its flags
       have hpos : ∀ r, r ∈ oe.pos ↔ r ∈ (allPieces x (flE tr fl0) e).map (x.parse (flE tr fl0)) := by
         intro r
         rw [hoe]
-        have h1 := (core_members x (flE tr fl0) e ([] : List R) 0).1 r
+        have h1 := (core_members x (flE tr fl0) e ([] : List R) 0 0).1 r
         simp only [coreOut, finishPN, (flE_negate tr fl0).2, Bool.and_false, Bool.false_eq_true, if_false]
         rw [h1]
         have : specIncl x (flE tr fl0) e = allPieces x (flE tr fl0) e := by
